@@ -87,7 +87,20 @@ func runC04(c *core.Ctx) {
 		},
 	}
 	// the offset check may live in a helper of the Buffer
-	facts.NewInliner(&ff, func(h *ssa.Function) bool {
+	nRet := 0
+	checkRefusals := func(fn *ssa.Function, flow map[*ssa.BasicBlock]facts.DNF) {
+		for _, r := range returnsOf(fn) {
+			if len(r.Results) == 0 || facts.RetErrIsNil(r) || len(flow[r.Block()]) == 0 {
+				continue
+			}
+			if !facts.AllAt(ff, flow, r, func(t facts.Tokens) bool { return t["offsetBad"] }) {
+				continue
+			}
+			nRet++
+			c.Check(carriesCode(facts.RetVal(r, len(r.Results)-1), "ErrRangeInvalid", 0), "C04.R1", "Buffer.Write/mismatch-is-range-invalid", r.Pos(), "offset mismatch returns an error wrapping ErrRangeInvalid", "the offset-mismatch refusal does not wrap ErrRangeInvalid with %w: over HTTP it is not answered 416")
+		}
+	}
+	il := facts.NewInliner(&ff, func(h *ssa.Function) bool {
 		return h.Pkg == wr.Pkg && h.Signature.Recv() != nil && structName(h.Signature.Recv().Type()) == "Buffer" && helperTouches(h, 2, func(in ssa.Instruction) bool {
 			fa, ok := in.(*ssa.FieldAddr)
 			if !ok {
@@ -97,6 +110,8 @@ func runC04(c *core.Ctx) {
 			return fld == "checkStartOffset"
 		})
 	})
+	// a refusal issued inside such a helper is judged there, under the facts of the call
+	il.OnInlined = func(h *ssa.Function, flow map[*ssa.BasicBlock]facts.DNF) { checkRefusals(h, flow) }
 	flow := facts.PathFlow(wr, ff)
 	_ = offsetVal
 	nStore := 0
@@ -118,17 +133,7 @@ func runC04(c *core.Ctx) {
 	if nStore == 0 {
 		c.Fail("C04.R2", "Buffer.Write/append-guarded", wr.Pos(), "Buffer.Write does not append to the buffer")
 	}
-	nRet := 0
-	for _, r := range returnsOf(wr) {
-		if facts.RetErrIsNil(r) {
-			continue
-		}
-		if !facts.AllAt(ff, flow, r, func(t facts.Tokens) bool { return t["offsetBad"] }) {
-			continue
-		}
-		nRet++
-		c.Check(carriesCode(facts.RetVal(r, 1), "ErrRangeInvalid", 0), "C04.R1", "Buffer.Write/mismatch-is-range-invalid", r.Pos(), "offset mismatch returns an error wrapping ErrRangeInvalid", "the offset-mismatch refusal does not wrap ErrRangeInvalid with %w: over HTTP it is not answered 416")
-	}
+	checkRefusals(wr, flow)
 	if nRet == 0 {
 		c.Fail("C04.R1", "Buffer.Write/mismatch-is-range-invalid", wr.Pos(), "Buffer.Write has no return on the offset-mismatch branch: mismatching data is not refused")
 	}
